@@ -824,7 +824,7 @@ pub fn clone_population(scn: &Scenario, log: &Log, target: usize) -> (bool, bool
             continue;
         }
         match op_of(o) {
-            Some(Op::Clone { dst, .. }) if matches!(o.result, OpResult::Done) => {
+            Some(Op::Clone { dst, .. }) | Some(Op::CloneInside { dst, .. }) if matches!(o.result, OpResult::Done) => {
                 insts.push(Inst { created_start: o.start_step, created_end: o.end_step, gone: None });
                 events.push((o.end_step, 0, SlotEv::Put { slot: dst, inst: insts.len() - 1 }));
             }
